@@ -29,6 +29,10 @@ def run(ctx):
 
     for i, rng in ctx.cases("construct", ctx.n(1300, 40000)):
         one(ctx, rng, xr, frequency, direction, construct_partition)
+    for i, rng in ctx.cases("conditional", ctx.n(500, 12000)):
+        conditional(ctx, rng, xr, frequency)
+    for i, rng in ctx.cases("shape", ctx.n(600, 15000)):
+        published_shape(ctx, rng, xr, frequency)
 
 
 def fgrid(rng):
@@ -216,3 +220,150 @@ def one(ctx, rng, xr, frequency, direction, construct_partition):
                 rec.bad("measured_equals_requested", mk, {"dm_measured": mdm[k], "dm_requested": dmv[k], "dspr_measured": msp[k], "dspr_requested": sgv[k], "nd": nd}, "measured-direction-or-spread-differs-from-requested")
         else:
             rec.skip("measured_equals_requested", "grid does not resolve the spread (dd > sigma/2 or sigma > 50 deg)")
+
+
+G = 9.80665
+
+
+def ref_pm(f, fp, alpha=0.0081):
+    """Pierson and Moskowitz (1964): alpha g^2 (2 pi)^-4 f^-5 exp(-5/4 (f/fp)^-4)."""
+    return alpha * G ** 2 * (2 * np.pi) ** -4 * f ** -5.0 * np.exp(-1.25 * (f / fp) ** -4.0)
+
+
+def ref_jonswap(f, fp, gamma, sa=0.07, sb=0.09, alpha=0.0081):
+    """Hasselmann et al. (1973): PM x gamma^exp(-(f-fp)^2 / (2 sigma^2 fp^2)), sigma_a up to fp, sigma_b above."""
+    sig = np.where(f <= fp, sa, sb)
+    return ref_pm(f, fp, alpha) * gamma ** np.exp(-((f - fp) ** 2) / (2 * sig ** 2 * fp ** 2))
+
+
+def ref_gauss(f, fp, gw):
+    return np.exp(-0.5 * ((f - fp) / gw) ** 2)
+
+
+def ref_phi(f, d):
+    """Kitaigorodskii depth factor of TMA (Bouws et al. 1985) with the exact linear wavenumber (Newton)."""
+    w2 = (2 * np.pi * f) ** 2
+    k = np.maximum(w2 / G, np.sqrt(w2 / (G * d)))
+    for _ in range(60):
+        t = np.tanh(k * d)
+        k = k - (G * k * t - w2) / (G * t + G * k * d * (1 - t * t))
+    kd = np.minimum(k * d, 300.0)
+    return np.tanh(kd) ** 2 / (1 + 2 * kd / np.sinh(2 * kd))
+
+
+def published_shape(ctx, rng, xr, frequency):
+    """The constructed E(f) is the published shape: bin-by-bin ratio to its own value at the bin nearest fp
+    (independent of the Hs rescaling), absolute values when no Hs is requested, and the maximum sits at fp."""
+    rec = ctx.rec
+    f, fkind = fgrid(rng)
+    shape = str(rng.choice(["pierson_moskowitz", "jonswap", "tma", "gaussian"]))
+    on_node = bool(rng.random() < 0.5)
+    fp = float(f[int(rng.integers(2, len(f) - 2))]) if on_node else float(rng.uniform(f[2], f[-3]))
+    gam = float(rng.uniform(1.0, 7.0))
+    sa, sb = float(rng.uniform(0.04, 0.1)), float(rng.uniform(0.07, 0.14))
+    alpha = float(rng.uniform(0.004, 0.02))
+    gw = float(10 ** rng.uniform(np.log10(0.005), np.log10(0.1)))
+    dep = float(10 ** rng.uniform(0, 3))
+    with_hs = bool(rng.random() < 0.6) or shape == "gaussian"
+    hs = float(10 ** rng.uniform(-2, 1.3)) if with_hs else None
+    nx = int(rng.choice([0, 0, 2]))
+    key = "%s|f=%s:%d|%s|%s|%s" % (shape, fkind, len(f), "fp-on-node" if on_node else "fp-off-node", "hs" if with_hs else "alpha", "scalar" if nx == 0 else "DataArray")
+
+    def P(v):
+        if nx == 0:
+            return v
+        return xr.DataArray(np.array([v, v]), dims=["site"], coords={"site": [0, 1]})
+    try:
+        if shape == "pierson_moskowitz":
+            e = frequency.pierson_moskowitz(freq=f, fp=P(fp), alpha=alpha, hs=P(hs) if with_hs else None)
+            ref = ref_pm(f, fp, alpha)
+        elif shape == "jonswap":
+            e = frequency.jonswap(freq=f, fp=P(fp), alpha=alpha, gamma=P(gam), sigma_a=sa, sigma_b=sb, hs=P(hs) if with_hs else None)
+            ref = ref_jonswap(f, fp, gam, sa, sb, alpha)
+        elif shape == "tma":
+            e = frequency.tma(freq=f, fp=P(fp), dep=P(dep), alpha=alpha, gamma=P(gam), sigma_a=sa, sigma_b=sb, hs=P(hs) if with_hs else None)
+            ref = ref_jonswap(f, fp, gam, sa, sb, alpha) * ref_phi(f, dep)
+        else:
+            e = frequency.gaussian(freq=f, hs=P(hs), fp=P(fp), gw=P(gw))
+            ref = ref_gauss(f, fp, gw)
+    except Exception as ex:
+        rec.bad("published_shape", key, {"raised": repr(ex)[:300]}, "construct-raises")
+        return
+    lead = [d for d in e.dims if d != "freq"]
+    ev = e.transpose(*lead, "freq").values.reshape(-1, len(f))
+    # the dispersion approximation behind the TMA depth factor is good to 0.1 %: phi to ~0.5 %
+    rtol = 1e-2 if shape == "tma" else 1e-9
+    k = int(np.argmax(ref))
+    if not np.isfinite(ref).all() or ref[k] <= 0 or ref[k] < 1e-280:
+        rec.skip("published_shape", "reference under/overflows")
+        return
+    for row in ev:
+        if not with_hs:
+            okk = close(row, ref, rtol, atol=1e-13 * ref[k])[0]
+            (rec.ok("published_absolute", key) if okk else rec.bad("published_absolute", key, {"freq": f, "fp": fp, "got": row, "ref": ref, "gamma": gam, "alpha": alpha, "dep": dep}, "constructed-shape-differs-from-published"))
+        if row[k] <= 0 or not np.isfinite(row).all():
+            rec.bad("published_shape", key, {"freq": f, "fp": fp, "got": row}, "constructed-shape-differs-from-published")
+            continue
+        okk = close(row / row[k], ref / ref[k], rtol, atol=1e-12)[0]
+        (rec.ok("published_shape", key) if okk else rec.bad("published_shape", key, {"freq": f, "fp": fp, "got": row / row[k], "ref": ref / ref[k], "gamma": gam, "sigma": [sa, sb], "gw": gw, "dep": dep}, "constructed-shape-differs-from-published"))
+        # the peak of the constructed spectrum is where it was asked for (fp on a node; deep-water shapes)
+        if on_node and shape != "tma":
+            kk = int(np.argmax(row))
+            (rec.ok("peak_at_fp", key) if f[kk] == fp else rec.bad("peak_at_fp", key, {"freq": f, "fp": fp, "peak": f[kk]}, "constructed-peak-not-at-fp"))
+
+
+def conditional(ctx, rng, xr, frequency):
+    """`conditional` selects: at every position the result is the spectrum of the selected shape built from that
+    position's own parameters - also where a parameter that only the other shape uses is undefined there."""
+    rec = ctx.rec
+    f, fkind = fgrid(rng)
+    shapes = ["pierson_moskowitz", "jonswap", "tma", "gaussian"]
+    wt, wf = [str(x) for x in rng.choice(shapes, 2, replace=False)]
+    nx = int(rng.choice([1, 2, 3, 5, 8]))
+    scalar_cond = bool(rng.random() < 0.15)
+    dim = str(rng.choice(["part", "time", "site"]))
+    co = {dim: np.arange(nx)}
+
+    def A(v):
+        return xr.DataArray(np.asarray(v), dims=[dim], coords=co)
+    hsv = 10 ** rng.uniform(-2, 1.3, nx)
+    fpv = rng.uniform(f[1], f[-2], nx)
+    condv = np.full(nx, bool(rng.random() < 0.5)) if scalar_cond else rng.random(nx) < 0.5
+    own = {"jonswap": ["gamma"], "tma": ["gamma", "dep"], "gaussian": ["gw"], "pierson_moskowitz": []}
+    pv = {"gamma": rng.uniform(1.0, 7.0, nx), "dep": 10 ** rng.uniform(0, 4, nx), "gw": 10 ** rng.uniform(np.log10(0.005), np.log10(0.1), nx)}
+    holes = bool(rng.random() < 0.5) and not scalar_cond
+    pin = {k: v.copy() for k, v in pv.items()}
+    if holes:
+        # a parameter used only by the shape that is NOT selected at a position is undefined there
+        for nm in set(own[wt]) - set(own[wf]):
+            pin[nm][~condv] = np.nan
+        for nm in set(own[wf]) - set(own[wt]):
+            pin[nm][condv] = np.nan
+    kw = {k: A(v) for k, v in pin.items()}
+    cond = bool(condv[0]) if scalar_cond else A(condv)
+    key = "%s/%s|f=%s:%d|n=%d|cond=%s|%s" % (wt, wf, fkind, len(f), nx, "scalar" if scalar_cond else "array", "undefined-unselected-params" if holes else "all-defined")
+    try:
+        out = frequency.conditional(freq=f, hs=A(hsv), fp=A(fpv), cond=cond, when_true=wt, when_false=wf, **kw)
+    except Exception as ex:
+        rec.bad("conditional_selects", key, {"raised": repr(ex)[:300]}, "construct-raises")
+        return
+    if set(out.dims) != {dim, "freq"}:
+        rec.bad("conditional_selects", key, {"dims": list(out.dims)}, "conditional-wrong-dims")
+        return
+    ov = out.transpose(dim, "freq").values
+    hm = vals(out.spec.hs(), [dim]).reshape(-1)
+    for i in range(nx):
+        name = wt if condv[i] else wf
+        args = {"freq": f, "hs": float(hsv[i]), "fp": float(fpv[i])}
+        for nm in own[name]:
+            args[nm] = float(pv[nm][i])
+        single = getattr(frequency, name)(**args).values
+        okk = close(ov[i], single, 1e-12, atol=1e-14 * np.abs(single).max())[0] and np.all(ov[i] >= 0)
+        okh = close(hm[i:i + 1], hsv[i:i + 1], 1e-9)[0]
+        if okk and okh:
+            rec.ok("conditional_selects", key)
+            if holes:
+                rec.note("conditional:undefined-unselected")
+        else:
+            rec.bad("conditional_selects", key, {"position": i, "selected": name, "hs_requested": hsv[i], "hs_measured": hm[i], "n_nonfinite": int((~np.isfinite(ov[i])).sum()),
+                                                  "params": {k: v[i] for k, v in pin.items()}}, "conditional-does-not-select" if not okk else "constructed-hs-differs-from-requested")
